@@ -352,6 +352,168 @@ def check_handle_auth(ctx, prog):
     ctx.note_witness('C17.auth.client_session_can_authenticate', 'AsClient' in became_ok)
 
 
+# ------------------------------------------------------------------ the actor's handle(): dispatch of inbound frames
+def check_dispatch(ctx, prog):
+    """<NodeSession as Actor>::handle on MessageReceived(frame): the node server is told ConnectionAuthenticated only by a step that made the session
+    authenticated through the digest comparison; node / control frames on an unauthenticated session do nothing, also through the dispatcher"""
+    fn = '<NodeSession as Actor>::handle'
+    body = prog.find_fn(fn)
+    if body is None:
+        raise Inconclusive('NodeSession::handle not found')
+    ctx.encoded(prog, body)
+    I = session_interp(prog, effects=False)
+    st0 = State()
+    told = 0
+    for lab, av, okk, close in fsm.auth_states(prog, I, st0):
+        role = 'AsServer' if lab.startswith('AsServer') else 'AsClient'
+        sv = lab[len(role) + 1:-1]
+        frames = [('auth:' + mname, mvar, mv, cl.variant(prog, 'Message', 'Auth', (cl.record(prog, 'AuthenticationMessage', 'out/auth.rs', msg=mv),), 'out/meta.rs'))
+                  for mname, mvar, mv in fsm.auth_messages(prog, I, st0)]
+        if not okk:
+            to = I.fresh_int('to', 'u64', st0)
+            for mname, mv in node_messages(prog, I, st0, to):
+                frames.append(('node:' + mname, None, mv, cl.variant(prog, 'Message', 'Node', (cl.record(prog, 'NodeMessage', 'out/node.rs', msg=mv),), 'out/meta.rs')))
+            for (v, idx, kind, fl) in cl.variants(prog, 'Msg', 'out/control.rs'):
+                cm = cl.record(prog, 'ControlMessage', 'out/control.rs', msg=models_std.some(Enum('Msg', v, idx, (Opaque('control::' + v, ident='control-payload'),))))
+                frames.append(('control:' + v, None, None, cl.variant(prog, 'Message', 'Control', (cm,), 'out/meta.rs')))
+        for fname, mvar, mv, frame in frames:
+            st = st0.fork()
+            pre = session_state(prog, I, st, av)
+            sc = st.alloc(pre)
+            selfc = session_self(prog, st)
+            nm = cl.record(prog, 'NetworkMessage', 'out/meta.rs', message=models_std.some(frame))
+            msg = cl.variant(prog, 'NodeSessionMessage', 'MessageReceived', (nm,))
+            n0 = len(st.trace)
+            name = 'dispatch.%s.%s' % (lab, fname)
+            cex = (lambda lab=lab, fname=fname: (lambda m: fsm.replay_auth(lab, fname[5:], m) if fname.startswith('auth:') else fsm.replay_gate('node' if fname.startswith('node:') else 'control', {'auth': lab, 'msg': fname.split(':', 1)[1]})))()
+            try:
+                st, coro = lc.make_coro(I, st, prog, fn, [Ref(selfc, ()), Opaque('ActorRef', ident='myself'), msg, Ref(sc, (), True)])
+                cc = st.alloc(coro)
+                done = drive(I, st, cc, 6)
+            except Unmodelled as e:
+                if fname.startswith('auth:'):
+                    raise
+                lp.record(ctx, name, st, {'unauthenticated_frame_has_no_effect': False}, 'C17.dispatch', sample={'auth': lab, 'frame': fname, 'reached': str(e)[:160]}, on_cex=cex)
+                continue
+            ctx.paths += len(done)
+            for k, (s, kind, v) in enumerate(done):
+                ev = [e for e in s.trace[n0:] if e[0] not in ('DROP', 'CORO_DROP')]
+                casts = [e[2].variant if isinstance(e[2], Enum) else None for e in ev if e[0] == 'CAST']
+                post = I.read(s, sc, ())
+                pa = cl.field(prog, post, 'NodeSessionState', 'auth')
+                pname = '%s.path%d' % (name, k)
+                if not fname.startswith('auth:'):
+                    claims = {'unauthenticated_frame_has_no_effect': kind == 'ready' and not ev, 'unauthenticated_frame_leaves_state_unchanged': val_key(post) == val_key(pre)}
+                    lp.record(ctx, pname, s, claims, 'C17.dispatch', on_cex=cex)
+                    continue
+                n_auth = casts.count('ConnectionAuthenticated')
+                claims = {'authenticated_announced_at_most_once': n_auth <= 1, 'ready_announced_only_with_authentication': ('ConnectionReady' not in casts) or n_auth == 1 or okk}
+                if n_auth:
+                    told += 1
+                    enum = fsm.SERVER if role == 'AsServer' else fsm.CLIENT
+                    pm = pa.fields[0]
+                    if okk:
+                        why = z3.BoolVal(False)       # an already authenticated session must not announce itself again
+                    elif role == 'AsServer' and sv == 'WaitingOnClientChallengeReply' and mvar == 'ClientChallenge':
+                        why = fsm.bytes_eq(av.fields[0].fields[1], cl.field(prog, mv.fields[0].fields[0], 'ChallengeReply', 'digest', 'out/auth.rs'))
+                    elif role == 'AsClient' and sv == 'WaitingForServerChallengeAck' and mvar == 'ServerAck':
+                        why = fsm.bytes_eq(av.fields[0].fields[3], cl.field(prog, mv.fields[0].fields[0], 'ChallengeAck', 'digest', 'out/auth.rs'))
+                    else:
+                        why = z3.BoolVal(False)
+                    ctx.prove(pname + '.announced_only_after_the_digest_matched', s.pc, z3.And(why, is_variant(I, prog, pm, enum, 'Ok')), group='C17.dispatch.announced_only_after_the_digest_matched',
+                              key='C17.dispatch.announced_only_after_the_digest_matched', on_cex=cex)
+                lp.record(ctx, pname, s, claims, 'C17.dispatch', on_cex=cex)
+    ctx.absorb(I)
+    ctx.note_witness('C17.dispatch.a_session_announces_its_authentication', told > 0)
+
+
+# ------------------------------------------------------------------ the node server: who is listed, who is recorded as authenticated
+def check_node_server(ctx, prog):
+    """<NodeServer as Actor>::handle: GetSessions lists exactly the sessions recorded as authenticated; only ConnectionAuthenticated(id) records a session
+    as authenticated, and only a session the server knows with a peer name (the session sends it only after the digest check, see dispatch)"""
+    fn = '<NodeServer as Actor>::handle'
+    body = prog.find_fn(fn)
+    if body is None:
+        raise Inconclusive('NodeServer::handle not found')
+    ctx.encoded(prog, body)
+    sd = prog.crate.struct('NodeServerState')
+    if not sd or not {'node_sessions', 'authenticated_sessions', 'subscriptions', 'connection_ids'} <= set(sd['fields']):
+        raise Inconclusive('NodeServerState fields changed')
+    listed_some = False
+    added = 0
+
+    def mk(I, st, auth, named):
+        aid = lambda n: Enum('ActorId', 'Local', 0, (I.mk_int(n, 'u64'),))
+        nm = lambda n: models_std.some(cl.record(prog, 'NameMessage', 'out/auth.rs', name=Str('peer%d' % n), connection_id=I.mk_int(0, 'u64'), connection_string=Str('peer%d:1' % n), flags=models_std.NONE))
+        info = lambda n: cl.record(prog, 'NodeServerSessionInformation', actor=Opaque('ActorRef', ident='sess%d' % n), peer_name=nm(n) if n in named else models_std.NONE, is_server=z3.BoolVal(True),
+                                   node_id=I.mk_int(100 + n, 'u64'), peer_addr=Str('addr%d' % n))
+        state = cl.record(prog, 'NodeServerState', node_sessions=Agg('HashMap', [Agg('()', (aid(n), info(n))) for n in (1, 2)]), authenticated_sessions=Agg('HashSet', [aid(n) for n in auth]),
+                          subscriptions=Agg('HashMap', ()), connection_ids=Agg('HashMap', ()), this_node_name=cl.record(prog, 'NameMessage', 'out/auth.rs', name=Str('this-node')))
+        return st.alloc(state), aid
+
+    def auth_ids(I, s, sc):
+        post = I.read(s, sc, ())
+        out = set()
+        for x in cl.field(prog, post, 'NodeServerState', 'authenticated_sessions').fields:
+            out.add(z3.simplify(x.fields[0].t).as_long())
+        return out
+    for auth in ((), (1,), (2,), (1, 2)):
+        I = session_interp(prog, effects=False)
+
+        @I.model(r'(^|::)RpcReplyPort::<.*>::send$', 'RpcReplyPort::send (recorded)')
+        def m_ps(I, st, f, args, fr):
+            st.emit('REPLY', args[1])
+            return I.ret(st, models_std.ok(UNIT))
+        # GetSessions
+        st = State()
+        sc, aid = mk(I, st, auth, (1, 2))
+        msg = cl.variant(prog, 'NodeServerMessage', 'GetSessions', (Opaque('RpcReplyPort', ident='reply'),))
+        st, coro = lc.make_coro(I, st, prog, fn, [Ref(st.alloc(Opaque('NodeServer')), ()), Opaque('ActorRef', ident='myself'), msg, Ref(sc, (), True)])
+        cc = st.alloc(coro)
+        for k, (s, kind, v) in enumerate(drive(I, st, cc, 3)):
+            name = 'node_server.GetSessions.auth%s.path%d' % (''.join(map(str, auth)) or '-', k)
+            reps = [e[1] for e in s.trace if e[0] == 'REPLY']
+            listed = None
+            if len(reps) == 1 and isinstance(reps[0], Agg):
+                listed = sorted(z3.simplify(e.fields[0].t).as_long() - 100 for e in reps[0].fields)
+                listed_some = listed_some or bool(listed)
+            lp.record(ctx, name, s, {'lists_exactly_the_authenticated_sessions': kind == 'ready' and listed == sorted(auth), 'listing_changes_nothing': auth_ids(I, s, sc) == set(auth)}, 'C17.node_server',
+                      sample={'authenticated': list(auth), 'listed': listed}, on_cex=lambda m: fsm.replay_gate('sessions', {}))
+        # every other message that does not carry authentication: the authenticated set never grows
+        for mname, mk_msg in (('ConnectionReady', lambda: cl.variant(prog, 'NodeServerMessage', 'ConnectionReady', (aid(1),))),
+                              ('UpdateSession', lambda: cl.variant(prog, 'NodeServerMessage', 'UpdateSession', (aid(1), cl.record(prog, 'NameMessage', 'out/auth.rs', name=Str('peer1'), connection_id=I.mk_int(0, 'u64'),
+                                                                                                                                 connection_string=Str('peer1:1'), flags=models_std.NONE)))),
+                              ('CheckSession', lambda: cl.variant(prog, 'NodeServerMessage', 'CheckSession', (cl.record(prog, 'NameMessage', 'out/auth.rs', name=Str('peer1'), connection_id=I.mk_int(0, 'u64'),
+                                                                                                                        connection_string=Str('peer1:1'), flags=models_std.NONE), Opaque('RpcReplyPort', ident='reply')))),
+                              ('ConnectionAuthenticated', lambda: cl.variant(prog, 'NodeServerMessage', 'ConnectionAuthenticated', (aid(1),))),
+                              ('ConnectionAuthenticated/unknown', lambda: cl.variant(prog, 'NodeServerMessage', 'ConnectionAuthenticated', (aid(7),)))):
+            for named in ((1, 2), (2,)):
+                st = State()
+                sc, aid = mk(I, st, auth, named)
+                name0 = 'node_server.%s.auth%s.named%s' % (mname, ''.join(map(str, auth)) or '-', ''.join(map(str, named)))
+                try:
+                    st, coro = lc.make_coro(I, st, prog, fn, [Ref(st.alloc(Opaque('NodeServer')), ()), Opaque('ActorRef', ident='myself'), mk_msg(), Ref(sc, (), True)])
+                    cc = st.alloc(coro)
+                    done = drive(I, st, cc, 4)
+                except Unmodelled as e:
+                    ctx.extra.setdefault('node_server_arms_not_executed', []).append('%s: %s' % (name0, str(e)[:120]))
+                    continue
+                ctx.paths += len(done)
+                for k, (s, kind, v) in enumerate(done):
+                    after = auth_ids(I, s, sc)
+                    grown = after - set(auth)
+                    claims = {'handler_completes': kind == 'ready'}
+                    if mname == 'ConnectionAuthenticated':
+                        claims['only_the_announcing_known_named_session_is_recorded'] = grown <= ({1} if 1 in named else set())
+                        added += 1 if grown else 0
+                    else:
+                        claims['authenticated_set_does_not_grow'] = not grown
+                    lp.record(ctx, '%s.path%d' % (name0, k), s, claims, 'C17.node_server', on_cex=lambda m: fsm.replay_gate('sessions', {}))
+        ctx.absorb(I)
+    ctx.note_witness('C17.node_server.some_session_listed', listed_some)
+    ctx.note_witness('C17.node_server.authentication_recorded', added > 0)
+
+
 def run(ctx, prog):
     ctx.bounds.update({
         'gates': 'handle_node (whole function) and handle_control (first poll) from every AuthenticationState (11 states, payloads symbolic) on every message variant; '
@@ -364,3 +526,5 @@ def run(ctx, prog):
     check_handle_node(ctx, prog)
     check_handle_control(ctx, prog)
     check_handle_auth(ctx, prog)
+    check_dispatch(ctx, prog)
+    check_node_server(ctx, prog)
